@@ -16,7 +16,7 @@ def run(ctx):
     # (c) ordering / refusal on the transition system of the real reconcilers
     d = 24 if quick else 38
     cfg = dict(nt=1, nx=2, sync=False, rollback=False, faults=False, crash=False)
-    queries = [('reach', 26, ['reach:tx2-failed-aborted']), ('bad', d, ['bad:c01-rejected-but-target-altered'])]
+    queries = [('reach', 26, ['reach:tx1-failed-aborted']), ('bad', d, ['bad:c01-rejected-but-target-altered'])]
     proto.run(ctx, 'C05', [('1x2', cfg, queries, ['c05'])],
               '(a) chunk arithmetic of ModelPluginInfo.Validate for every document length up to 3*chunkSize+2 with unmaterialised '
               'contents; (c) contracts "VALIDATED only with the plugin\'s acceptance in that very step, on top of the predecessor\'s '
